@@ -607,3 +607,216 @@ func refPoolPut(r *engine.Run, rule string) {
 	}
 	r.OK(rule, "sync.Pool.Put calls", "-", fmt.Sprintf("%d Put calls in the repository's functions; none is followed by a use of the object", puts))
 }
+
+// errSelect: a function that runs a writer in a goroutine and then waits with
+//
+//	select { case err := <-errC: ...; case <-doneC: ... }
+//
+// where the goroutine reports a failure on errC and closes doneC when it ends,
+// can find BOTH cases ready (the writer failed and finished before the waiter
+// got to its select); select then picks one at random. The done case therefore
+// has to look at the error channel again before it reports success, otherwise a
+// failed save is - now and then - reported as a successful one.
+//
+// Rule: in every function of the package, for every blocking select with a
+// receive case on a chan error and a receive case on another channel made in
+// the same function, no return with a nil error is reachable from the other
+// case without passing a further receive on the error channel.
+func errSelect(r *engine.Run, rule string, fns []*ssa.Function, minimum int) {
+	chanRoot := func(v ssa.Value) ssa.Value {
+		if u, ok := v.(*ssa.UnOp); ok && u.Op == token.MUL {
+			return u.X
+		}
+		return v
+	}
+	isErrChan := func(v ssa.Value) bool {
+		ch, ok := v.Type().Underlying().(*types.Chan)
+		return ok && isErrorType(ch.Elem())
+	}
+	n := 0
+	for _, f := range fns {
+		if len(f.Blocks) == 0 {
+			continue
+		}
+		madeHere := map[ssa.Value]bool{}
+		engine.Instrs(f, func(in ssa.Instruction) {
+			switch x := in.(type) {
+			case *ssa.MakeChan:
+				madeHere[x] = true
+			case *ssa.Store:
+				if _, ok := x.Val.(*ssa.MakeChan); ok {
+					madeHere[x.Addr] = true
+				}
+			}
+		})
+		o := ord{}
+		engine.Instrs(f, func(in ssa.Instruction) {
+			sel, ok := in.(*ssa.Select)
+			if !ok || !sel.Blocking {
+				return
+			}
+			var errCh ssa.Value
+			for _, st := range sel.States {
+				if st.Dir == types.RecvOnly && isErrChan(st.Chan) {
+					errCh = chanRoot(st.Chan)
+				}
+			}
+			if errCh == nil {
+				return
+			}
+			receivesErr := func(b *ssa.BasicBlock) bool {
+				for _, i2 := range b.Instrs {
+					switch y := i2.(type) {
+					case *ssa.Select:
+						if y == sel {
+							continue
+						}
+						for _, st := range y.States {
+							if st.Dir == types.RecvOnly && chanRoot(st.Chan) == errCh {
+								return true
+							}
+						}
+					case *ssa.UnOp:
+						if y.Op == token.ARROW && chanRoot(y.X) == errCh {
+							return true
+						}
+					}
+				}
+				return false
+			}
+			// the index the select returns
+			var idx ssa.Value
+			for _, ref := range engine.Referrers(sel) {
+				if ex, ok := ref.(*ssa.Extract); ok && ex.Index == 0 {
+					idx = ex
+				}
+			}
+			if idx == nil {
+				return
+			}
+			for k, st := range sel.States {
+				if st.Dir != types.RecvOnly || chanRoot(st.Chan) == errCh || !madeHere[chanRoot(st.Chan)] {
+					continue
+				}
+				// the body of case k
+				var body *ssa.BasicBlock
+				for _, ref := range engine.Referrers(idx) {
+					bo, ok := ref.(*ssa.BinOp)
+					if !ok || bo.Op != token.EQL {
+						continue
+					}
+					if c, ok := intConst(bo.Y); !ok || c != int64(k) {
+						continue
+					}
+					for _, r2 := range engine.Referrers(bo) {
+						if iff, ok := r2.(*ssa.If); ok {
+							body = iff.Block().Succs[0]
+						}
+					}
+				}
+				if body == nil {
+					continue
+				}
+				n++
+				// a nil-error return reachable without a further look at the error channel
+				var bad *ssa.Return
+				seen := map[*ssa.BasicBlock]bool{}
+				var dfs func(b *ssa.BasicBlock)
+				dfs = func(b *ssa.BasicBlock) {
+					if seen[b] || bad != nil {
+						return
+					}
+					seen[b] = true
+					if receivesErr(b) {
+						return
+					}
+					if ret, ok := b.Instrs[len(b.Instrs)-1].(*ssa.Return); ok {
+						for i := range ret.Results {
+							if isErrorType(ret.Results[i].Type()) && nilConst(resultValue(ret, i)) {
+								bad = ret
+							}
+						}
+						return
+					}
+					for _, s := range b.Succs {
+						dfs(s)
+					}
+				}
+				dfs(body)
+				where := ""
+				if bad != nil {
+					where = r.P.Pos(bad.Pos())
+				}
+				r.Check(bad == nil, rule, o.next(fn(f)+"|done case of the wait"), r.P.Pos(sel.Pos()), "the completion case looks at the error channel again before it reports success",
+					"the wait selects between the writer's error channel and its completion channel, and the completion case returns a nil error ("+where+") without looking at the error channel again: a writer that failed and finished before the waiter reached the select leaves both cases ready, select picks either, and the failed save is reported as successful")
+			}
+		})
+	}
+	if n < minimum {
+		r.Anchor(rule, fmt.Errorf("unresolved anchor: %d waits on an error channel and a completion channel found (SaveChanges expected)", n))
+	}
+}
+
+// freshPathBuf: the trie keeps windows of the path it is handed inside the nodes
+// it builds (a leaf's remaining path, an extension's path are sub-slices of the
+// walked path), and those nodes live on in the store, the cache and the change
+// collector. The value is copied at the API boundary (Insert wraps a fresh
+// MarshalMsg result); the path must be copied there as well, or a caller that
+// refills one key buffer per entry rewrites the paths of the entries it stored
+// before - lookups through another handle and the saved state lose them.
+//
+// Rule: in the exported Insert, no Path argument of a call to one of the trie's
+// own unexported methods is the caller's path parameter itself or a slice of it.
+func freshPathBuf(r *engine.Run, rule string) {
+	f := r.Fn(rule, pkgUtil, "MerklePatriciaTrie", "Insert")
+	if f == nil {
+		return
+	}
+	var pathP ssa.Value
+	for _, p := range f.Params[1:] {
+		if isByteSlice(p.Type()) {
+			pathP = p
+			break
+		}
+	}
+	if pathP == nil {
+		r.Anchor(rule, fmt.Errorf("unresolved anchor: path parameter of %s", fn(f)))
+		return
+	}
+	rootOf := func(v ssa.Value) ssa.Value {
+		for {
+			v = stripConv(v)
+			if s, ok := v.(*ssa.Slice); ok {
+				v = s.X
+				continue
+			}
+			return v
+		}
+	}
+	n := 0
+	o := ord{}
+	engine.Instrs(f, func(in ssa.Instruction) {
+		c, ok := in.(*ssa.Call)
+		if !ok {
+			return
+		}
+		g := c.Call.StaticCallee()
+		if g == nil || recvNamed(g) != "MerklePatriciaTrie" || g.Object() == nil || g.Object().Exported() {
+			return
+		}
+		for _, a := range c.Call.Args[1:] {
+			if !isByteSlice(a.Type()) {
+				continue
+			}
+			if _, isConst := stripConv(a).(*ssa.Const); isConst {
+				continue
+			}
+			n++
+			r.Check(rootOf(a) != pathP, rule, o.next(fn(f)+"|path handed to "+g.Name()), r.P.Pos(c.Pos()), "the walk is handed a copy of the caller's path (or a constant)",
+				"Insert hands the caller's own path slice to "+g.Name()+", which builds nodes around sub-slices of it: the stored leaf and extension paths alias the caller's key buffer, so a caller that refills the buffer for its next key rewrites the paths of entries stored before (lookups through another handle, and the saved state, lose them)")
+		}
+	})
+	if n < 2 {
+		r.Anchor(rule, fmt.Errorf("unresolved anchor: only %d path hand-overs found in %s", n, fn(f)))
+	}
+}
